@@ -46,7 +46,7 @@ def send_bodies(ctx):
     trig = {CI + 'next_recv', CI + 'push_send', TERM + 'send'}
     out = []
     for key, b in ctx.facts.bodies.items():
-        if is_helper_body(key) or mir.inlinable(b):
+        if is_helper_body(key) or mir.private_helper(b):
             continue
         if calls_any_deep(ctx, b, trig):
             out.append(b)
@@ -63,7 +63,7 @@ def calls_any_deep(ctx, body, names, depth=0):
         fn = t.get('fn')
         if fn and fn.get('local'):
             c = ctx.facts.bodies.get(fn['path'])
-            if c is not None and c is not body and mir.inlinable(c) and calls_any_deep(ctx, c, names, depth + 1):
+            if c is not None and c is not body and mir.private_helper(c) and calls_any_deep(ctx, c, names, depth + 1):
                 return True
     return False
 
@@ -72,7 +72,7 @@ def recv_bodies(ctx):
     trig = {CI + 'next_send', CI + 'push_recv', TERM + 'recv'}
     out = []
     for key, b in ctx.facts.bodies.items():
-        if is_helper_body(key) or mir.inlinable(b):
+        if is_helper_body(key) or mir.private_helper(b):
             continue
         if calls_any_deep(ctx, b, trig):
             out.append(b)
